@@ -373,6 +373,35 @@ def prep_trace(path, out):
             cur["ops"][r["o"] - 1].append({"n": r["n"], "done": r["done"], "null": r["null"], "err": r["err"]})
         elif e == "CH":     # the single handler invocation of dispatch_read / dispatch_write
             cur["ops"][r["o"] - 1].append({"n": r["n"], "done": 1, "null": r["null"], "err": r["err"]})
+    # per operation: the bytes it moved according to its recorded handler invocations
+    lens = {}
+    for r in recs:
+        if r["e"] == "Reset":
+            cur = r
+            lens = {}
+        elif r["e"] in ("Read", "Write", "CRead", "CWrite"):
+            lens[r["o"]] = (r["e"], r["len"])
+        elif r["e"] == "ExecEnd" or r is recs[-1]:
+            pass
+    cur = None
+    for r in recs:
+        if r["e"] == "Reset":
+            cur = r
+            cur["tot"] = []
+            cur["_lens"] = {}
+        elif r["e"] in ("Read", "Write", "CRead", "CWrite"):
+            cur["_lens"][r["o"]] = (r["e"], r["len"])
+    for r in recs:
+        if r["e"] == "Reset":
+            tot = []
+            for i, hs in enumerate(r["ops"]):
+                kind, ln = r["_lens"].get(i + 1, ("Read", 0))
+                if kind in ("Read", "CRead"):
+                    tot.append(sum(h["n"] for h in hs))
+                else:
+                    tot.append(ln - (hs[-1]["n"] if hs else 0))
+            r["tot"] = tot
+            del r["_lens"]
     with open(out, "w") as f:
         for r in recs:
             f.write(json.dumps(r) + "\n")
@@ -480,6 +509,12 @@ def per_execution(v, name, recs, hdr, sp, lock, tcfg):
         lines = open(r1.trace_with_header).read().splitlines()
         k = r1.maxl or 1
         ctx = " | ".join(lines[max(1, k - 4):k])
+        if ev[0]["kind"] in ("filein", "fileout"):
+            # the disk engine picks / performs / disposes in a pipeline of its own: how promptly STOP
+            # takes effect there is not transcribed, so it is left open for regular files
+            rf = validate_trace("IoTrace.tla", "IoTrace_file.cfg", p, header=hdr, timeout=300, metaname="c14xf_%s_%d" % (name, i))
+            if rf.accepted and not rf.violated:
+                continue
         r2 = validate_trace("IoTrace.tla", "IoTrace_lib.cfg", p, header=hdr, timeout=300, metaname="c14xl_%s_%d" % (name, i))
         if r2.accepted and not r2.violated:
             with lock:
@@ -575,7 +610,7 @@ def run_batch(v, drv, name, sched_text, seed, lock, kf_listed):
                 p = save_replay(PROP, name + ".sched", src=sp)
                 v.violation("cleanup handler before a handler (%s): %s" % (name, known[0]), p)
                 return
-    tcfg = "IoTrace_file.cfg" if "f_" in name else "IoTrace.cfg"
+    tcfg = "IoTrace.cfg"
     try:
         r = validate_trace("IoTrace.tla", tcfg, prepped, header=hdr, timeout=400, metaname="c14tr_" + name)
     except Broken:
